@@ -360,10 +360,11 @@ def _writeBitwiseImageData(strikeIndex, glyphName, bitmapObject, writer, ttFont)
     )
     writer.newline()
     for curRow in range(metrics.height):
+        # a row holds bitDepth bits per pixel (the reader hands bitDepth to setRows)
         rowData = bitmapObject.getRow(
-            curRow, bitDepth=1, metrics=metrics, reverseBytes=True
+            curRow, bitDepth=bitDepth, metrics=metrics, reverseBytes=True
         )
-        rowData = _data2binary(rowData, metrics.width)
+        rowData = _data2binary(rowData, metrics.width * bitDepth)
         # Make the output a readable ASCII art form.
         rowData = strjoin(map(binaryConv.get, rowData))
         writer.simpletag("row", value=rowData)
